@@ -71,7 +71,7 @@ class Values:
             return ('dict',) + tuple(sorted((self.key(k), self.key(x)) for k, x in v.items()))
         if isinstance(v, BaseException):
             if t.__name__ in ('InvalidStateError', 'CancelledError', 'TimeoutError', 'Full', 'Empty', 'KeyError',
-                              'IndexError', 'RuntimeError'):
+                              'IndexError', 'RuntimeError') and all(isinstance(a, str) for a in v.args):
                 return ('exc', t.__module__, t.__qualname__, ())  # message text differs between stub and stdlib
             return ('exc', t.__module__, t.__qualname__, tuple(self.key(a) for a in v.args))
         if isinstance(v, type):
@@ -231,6 +231,8 @@ class Runtime:
     def declare(self, name, kind, cfg):
         old = self.objs.get(name)
         if old is None:
+            if isinstance(cfg.get('cap'), int) and cfg['cap'] > 15:
+                raise Unsupported(f'{name}: cap {cfg["cap"]} does not fit the 4-bit length counters of the model (max 15)')
             self.objs[name] = (kind, dict(cfg))
             if self.cenv is not None:
                 for v, (w, init) in self.kinds[kind].vars(name, cfg, self.cenv).items():
@@ -341,11 +343,15 @@ _BY_NAME = (_types.FunctionType, _types.BuiltinFunctionType, _types.MethodDescri
 
 
 def _abs(o, seen, depth):
-    if o is None or o is True or o is False:
+    if o is None:
         return o
+    if o is True or o is False:
+        return ('bool', str(o))   # not the bool itself: True == 1 and False == 0 would make two different states equal
     t = type(o)
-    if t in (int, float, str, bytes):
+    if t in (int, str, bytes):
         return o
+    if t is float:
+        return ('float', repr(o))   # 1.0 == 1
     nm = getattr(o, '_vname', None)
     if nm is not None and isinstance(nm, str):
         return ('p', nm)
@@ -408,6 +414,9 @@ def _abs(o, seen, depth):
             seen[i] = len(seen)
             return ('it', t.__name__) + tuple(_abs(x, seen, depth + 1) for x in red[1:])
         return _uniq(t.__name__)
+    if any(b.__name__ == 'Scenario' and b.__module__ == 'engine_b.scenario' for b in t.__mro__):
+        # the scenario object is configuration (its parameters are fixed for the whole analysis)
+        return ('scenario', t.__name__)
     if (t.__module__ or '').startswith('engine_b') and t.__name__ in (
             'Runtime', 'Explorer', 'ThreadCtx', 'OpRec', 'Values', 'CEnv', 'Node', 'Tree') or isinstance(o, Kind_):
         return ('engine', t.__name__)
@@ -430,6 +439,7 @@ def _abs(o, seen, depth):
 # _PyInterpreterFrame.stacktop (int) at +64, localsplus[] at +72.  Self-tested at import; when the test
 # fails the stack is reported as unknown (the fingerprints then fall back on differential validation).
 import ctypes as _ct
+import hashlib as _hl
 
 
 def _frame_stack_raw(f):
@@ -508,6 +518,9 @@ def fingerprint(ctx, skip=2):
     parts.append((ctx.extra.get('ending'), ctx.extra.get('ns')))
     parts.append(tuple(sorted((k, v) for k, v in ctx.extra.get('held', {}).items() if v)))
     try:
-        return hash(tuple(parts)), tuple(parts)
+        tp = tuple(parts)
+        # a digest of the printed form, not hash(): hash(0) == hash(False) == hash('') == 0, so tuples that differ only in
+        # such a value collide under hash() (a merge of two different local states)
+        return _hl.blake2b(repr(tp).encode('utf8', 'backslashreplace'), digest_size=12).hexdigest(), tp
     except TypeError:
         return None, None
